@@ -56,7 +56,7 @@ def sweeps(ck):
 def run(ck):
     engine.check_engine(ck, 'C10', actor.proj(keep_out=lambda o: o.startswith('ERR:'), keys=('alive', 'zombies', 'exited')),
                         'live processes + zombies + actor exit + errors', n_sys_quick=12, fail_p=0.5, extra=sweeps,
-                        n_root_quick=150, root_projection=root.status_only, root_what='whether and with which status run returns')
+                        n_root_quick=150, root_projection=root.status_only, root_what='whether and with which status run returns', n_evflow_quick=24)
 
 
 def replay(ck, path):
